@@ -18,6 +18,8 @@ func main() {
 	switch os.Args[1] {
 	case "check":
 		os.Exit(cmdCheck(os.Args[2:]))
+	case "selftest":
+		os.Exit(cmdSelftest(os.Args[2:]))
 	case "overlay":
 		cmdOverlay(os.Args[2:])
 	default:
